@@ -179,6 +179,18 @@ CLAIMED = {
         technique='loop-invariant contracts (bit-vectors) + symbolic composition of real writer and readers, pyvc -> z3',
         design_ref='7/C15',
     ),
+    'C13': dict(
+        text='Per resource class of both clouds (real to_quantified_resource, mixins/super() resolved from the class statements, real __init__): never raises, quantity >= 0, '
+        'share resources: q(job1) + q(job2) <= q(any whole containing them) whatever the external storage is, name independent of the job; external-storage resources bill nothing at storage 0 and depend on it alone. '
+        'InstanceConfig.quantified_resources (loop invariant with ghost index maps): arguments passed unchanged, one fraction for all resources, output = exactly the non-None quantities in order; '
+        'the fraction, obtained by executing the real body on cpu = a, b, a+b and cores*1000: F(cores*1000) = 1024 for any core count, F >= 0, F(a)+F(b) <= F(a+b); packing induction step and final comparison machine-checked over uninterpreted q, F satisfying exactly those obligations. '
+        'Serialization: X.to_dict -> <cloud>_resource_from_dict -> X.from_dict -> X.__init__ executed symbolically per class: same class, same fields, identical billed quantities; '
+        '{GCP,Azure}SlimInstanceConfig.from_dict(to_dict()) preserves machine type (hence cores/memory), job_private and the element-wise reloaded resources.',
+        note=COMMON_NOTE + 'Assumptions: int constructor arguments are non-negative; <cloud>_machine_type_to_parts is a function of the machine type string; the Azure disk-tier lookup is abstracted (returned tier size >= request; every tier has a name entry, established by create()); '
+        'create() (needs ProductVersions) and the float cost multiplication are outside the contract; the Terra config subclass is not covered.',
+        technique='symbolic execution of real methods with inlined class hierarchy (pyvc + pyclass) -> z3; loop-invariant contract; induction-step lemma',
+        design_ref='7/C13',
+    ),
 }
 
 NOT_YET = 'not yet brought within the verifier\'s reach in this build (planned in DESIGN.md section 7); no claim is made'
